@@ -220,6 +220,28 @@ template<class X, class Y> void mirror_laws(X const& x, Y const& y, std::string 
 	++g_po; if(static_cast<bool>(x == y) != static_cast<bool>(y == x)) { bad("== is not symmetric"); }
 	++g_po; if(static_cast<bool>(x != y) == static_cast<bool>(x == y)) { bad("!= is not the negation of =="); }
 }
+// element type that is trivially copyable and has unique object representations but whose == is NOT bitwise identity (1/2 == 2/4): equality of arrays must be element-wise ==
+struct Fr { int n, d; friend bool operator==(Fr const& a, Fr const& b) { return a.n*b.d == b.n*a.d; } friend bool operator!=(Fr const& a, Fr const& b) { return !(a == b); } friend bool operator<(Fr const& a, Fr const& b) { return a.n*b.d < b.n*a.d; } };
+template<int DD> void nonbitwise_equality_t() {
+	if constexpr(DD == 1 || DD == 2) {
+		Fr const vals[3] = {{1, 2}, {2, 4}, {1, 3}};
+		std::vector<idx> ext = DD == 1 ? std::vector<idx>{3} : std::vector<idx>{2, 2};
+		idx const n = prod(ext); long tot = 1; for(idx i = 0; i < n; ++i) { tot *= 3; }
+		for(long ca = 0; ca < tot; ++ca) { for(long cb = 0; cb < tot; ++cb) {
+			multi::array<Fr, DD> a(vo::make_extensions<DD>(ext)), b(vo::make_extensions<DD>(ext));
+			long qa = ca, qb = cb; bool exp = true; for(idx i = 0; i < n; ++i) { a.data_elements()[i] = vals[qa % 3]; b.data_elements()[i] = vals[qb % 3]; if(!(vals[qa % 3] == vals[qb % 3])) { exp = false; } qa /= 3; qb /= 3; }
+			std::string rp = "fr/" + std::to_string(ca) + "/" + std::to_string(cb);
+			mc::cur_set("non-bitwise-equality", rp);
+			multi::array_ref<Fr, DD> ra(a.data_elements(), a.extensions()), rb(b.data_elements(), b.extensions());
+			auto chk = [&](bool eq, bool ne, char const* what) {
+				g_po += 2;
+				if(eq != exp || ne == exp) { mc::R.violation("D" + std::to_string(DD) + "|element-with-non-bitwise-equality|" + what + "|" + (eq != exp ? "==" : "!=") + " wrong", mc::J().s("harness", "cmpmc").s("replay", rp).s("operands", what).s("detail", std::string("element type {n,d} with n1*d2 == n2*d1 as equality; element-wise equality is ") + (exp ? "true" : "false") + ", library says == " + (eq ? "true" : "false") + ", != " + (ne ? "true" : "false")).str()); }
+			};
+			chk(a == b, a != b, "array vs array"); chk(ra == rb, ra != rb, "array_ref vs array_ref"); chk(a == rb, a != rb, "array vs array_ref"); chk(a() == b(), a() != b(), "view vs view"); chk(a == b(), a != b(), "array vs view");
+			if constexpr(DD == 2) { chk(a.rotated() == b.rotated(), a.rotated() != b.rotated(), "rotated view vs rotated view"); }
+		} }
+	}
+}
 template<int DD> void partially_ordered_t() {
 	if constexpr(DD == 1 || DD == 2) {
 		double const vals[3] = {0.0, 1.0, std::numeric_limits<double>::quiet_NaN()};
@@ -275,7 +297,7 @@ int main(int argc, char** argv) {
 		mc::R.add("fancy_dereferences", fancy::g.deref);
 		if(fancy::g.oob_deref || fancy::g.null_deref || fancy::g.null_arith) { mc::R.violation("D" + std::to_string(D) + "|fancy-pointer|provenance", mc::J().s("harness", "cmpmc").s("replay", "fancy").s("detail", fancy::g.first).str()); }
 #endif
-		(void)shard; if(wide && shard == 0 && only.empty()) { partially_ordered_t<D>(); }
+		(void)shard; if(wide && shard == 0 && only.empty()) { partially_ordered_t<D>(); nonbitwise_equality_t<D>(); }
 		mc::R.add("evaluations", g_evals + g_po); mc::R.add("pairs", g_pairs); mc::R.add("distinct_nontrivial", g_nontrivial);
 		mc::R.note("D=" + std::to_string(D) + ": logical values=" + std::to_string(vals.size()) + " ordered pairs=" + std::to_string(g_pairs) + " representation pairs=" + std::to_string(rps.size()) + " x4 constness" + (wide ? " (incl. every axis permutation of the storage)" : "") + (nshards > 1 ? " shard " + std::to_string(shard) + "/" + std::to_string(nshards) + " of the left operands" : ""));
 		mc::R.emit(stdout);
